@@ -299,7 +299,7 @@ func (x *Exec) Apply(op *Op, opIndex int) bool {
 			x.doTx(op)
 		}
 	case "mod":
-		if x.H().inBlock {
+		if x.H().inBlock && !x.H().noForeign {
 			x.doMod(op)
 		}
 	case "params":
